@@ -2,6 +2,7 @@ import Py4hwV.Proofs.C12Int
 import Py4hwV.Proofs.C12FP
 import Py4hwV.Proofs.C12Ieee
 import Py4hwV.Proofs.C12Enc
+import Py4hwV.Proofs.C12Conv
 /-
   C12 — Number-format helpers are bit-exact and arithmetically exact.
 
@@ -561,5 +562,61 @@ theorem dp_roundtrip (b : Nat) (hb : b < 2^64) (hnan : IEEE.isNaN IEEE.double b 
 
 example : IEEE.isNaN IEEE.single 0x7F800000 = false ∧ IEEE.isNaN IEEE.single 0x7FC00000 = true ∧
     IEEE.isNaN IEEE.single 0x80000001 = false := by decide
+
+/-! #### FPNum: `convert fmt ∘ from_ieee754 fmt = id` on every non-NaN pattern of every format.
+     Parametric argument (Proofs/C12Conv.lean): `adjust_semp_shape` (both m and p lose a common 2^k, then m is doubled d times),
+     `stdPrec_exact` (the two standardisation loops rescale exactly), `hidden_bit`, `roundtrip_fields` (generic format). -/
+
+/-- **FPNum round trip, single precision**: every non-NaN 32-bit pattern -/
+theorem fpnum_roundtrip_sp (b : Nat) (hb : b < 2^32) (hnan : IEEE.isNaN IEEE.single b = false) :
+    (FPNum.from_ieee754 .sp (b : Int)).bind (fun x => x.convert .sp) = some (b : Int) := by
+  have hn := isNaN_false IEEE.single b hnan
+  unfold IEEE.expOf IEEE.manOf IEEE.single at hn
+  simp only at hn
+  obtain ⟨x, hx, hc⟩ := roundtrip_fields 0xFF (-126) 127 23 IEEE754_SP_NAN_MANTISA (b / 2^31 % 2) (b / 2^23 % 2^8) (b % 2^23)
+    (by omega) (by omega) (by omega) (by intro h; apply hn; omega) (by decide) (by decide)
+  unfold FPNum.from_ieee754 FPNum.from_ieee754_sp unpack_ieee754_sp_parts
+  simp only [shr_nat, shl_one, show ((0xFF:Int)) = (2:Int)^8 - 1 by decide, land_mask_nat, land_one_nat]
+  rw [show ((2:Int)^8 - 1) = (0xFF : Int) by decide, hx]
+  simp only [Option.bind, FPNum.convert, fmtConsts, shl_one, IEEE754_SP_INF_MANTISA]
+  rw [hc]
+  simp only [Option.map, pack, gen_pack_sp_eq]
+  congr 1
+  omega
+/-- **FPNum round trip, double precision**: every non-NaN 64-bit pattern -/
+theorem fpnum_roundtrip_dp (b : Nat) (hb : b < 2^64) (hnan : IEEE.isNaN IEEE.double b = false) :
+    (FPNum.from_ieee754 .dp (b : Int)).bind (fun x => x.convert .dp) = some (b : Int) := by
+  have hn := isNaN_false IEEE.double b hnan
+  unfold IEEE.expOf IEEE.manOf IEEE.double at hn
+  simp only at hn
+  obtain ⟨x, hx, hc⟩ := roundtrip_fields 0x7FF (-1022) 1023 52 IEEE754_DP_NAN_MANTISA (b / 2^63 % 2) (b / 2^52 % 2^11) (b % 2^52)
+    (by omega) (by omega) (by omega) (by intro h; apply hn; omega) (by decide) (by decide)
+  unfold FPNum.from_ieee754 FPNum.from_ieee754_dp unpack_ieee754_dp_parts
+  simp only [shr_nat, shl_one, show ((0x7FF:Int)) = (2:Int)^11 - 1 by decide, land_mask_nat, land_one_nat]
+  rw [show ((2:Int)^11 - 1) = (0x7FF : Int) by decide, hx]
+  simp only [Option.bind, FPNum.convert, fmtConsts, shl_one, IEEE754_DP_INF_MANTISA]
+  rw [hc]
+  simp only [Option.map, pack, gen_pack_dp_eq]
+  congr 1
+  omega
+/-- **FPNum round trip, half precision**: every non-NaN 16-bit pattern -/
+theorem fpnum_roundtrip_hp (b : Nat) (hb : b < 2^16) (hnan : IEEE.isNaN IEEE.half b = false) :
+    (FPNum.from_ieee754 .hp (b : Int)).bind (fun x => x.convert .hp) = some (b : Int) := by
+  have hn := isNaN_false IEEE.half b hnan
+  unfold IEEE.expOf IEEE.manOf IEEE.half at hn
+  simp only at hn
+  obtain ⟨x, hx, hc⟩ := roundtrip_fields 0x1F (-14) 15 10 IEEE754_HP_NAN_MANTISA (b / 2^15 % 2) (b / 2^10 % 2^5) (b % 2^10)
+    (by omega) (by omega) (by omega) (by intro h; apply hn; omega) (by decide) (by decide)
+  unfold FPNum.from_ieee754 FPNum.from_ieee754_hp unpack_ieee754_hp_parts
+  simp only [shr_nat, shl_one, show ((0x1F:Int)) = (2:Int)^5 - 1 by decide, land_mask_nat, land_one_nat]
+  rw [show ((2:Int)^5 - 1) = (0x1F : Int) by decide, hx]
+  simp only [Option.bind, FPNum.convert, fmtConsts, shl_one, IEEE754_HP_INF_MANTISA]
+  rw [hc]
+  simp only [Option.map, pack, gen_pack_hp_eq]
+  congr 1
+  omega
+
+example : (FPNum.from_ieee754 .hp 0x0001).bind (fun x => x.convert .hp) = some 0x0001 := by decide
+example : (FPNum.from_ieee754 .sp 0xFF800000).bind (fun x => x.convert .sp) = some 0xFF800000 := by decide
 
 end C12
